@@ -12,7 +12,7 @@ from .c15 import pick
 INFO = {
     "bounds": {
         "quick": "trees T15, T09, T08, T06 and menuconfig pilot fixtures: session started on the sdkconfig of a (sampled) user state; every sequence of 2 UI actions (first action fixed per job, 9 kinds: move to row i, Enter, Space, leave, y/n key, reset option / menu, show-all, jump-to any node, load other file) with typed texts from a candidate list per type (in/out of range, malformed, hex without prefix, float with comma)",
-        "thorough": "3 actions, more trees",
+        "thorough": "2 actions, more trees / fixtures and start states",
     },
     "outside": ["Textual widgets and screens (replaced by a stand-in that calls the real handler methods)", "typed texts outside the candidate lists", "longer sequences"],
     "stubs": ["stand-in for MenuConfigApp's self (vk/ui.py): dialogs answered immediately, refresh / notify are no-ops", "memfs"],
@@ -95,7 +95,7 @@ def jobs(tier, seed, excluded=()):
     if tier == "quick":
         trees, nact, tmo, budget = ["T15", "T09", "T08", "T06", "E_range_cond", "F:menuconfig/kconfigs/Kconfig.pilot_all_scalars"], 2, 150, 2
     else:
-        trees, nact, tmo, budget = ["T15", "T09", "T08", "T06", "T07", "T03", "T04", "E_range_cond", "E_range_bound_dep"] + ["F:menuconfig/kconfigs/Kconfig." + x for x in ("pilot_all_scalars", "pilot_choice", "pilot_submenu", "indirect_sets", "float", "warning")], 3, 500, 3
+        trees, nact, tmo, budget = ["T15", "T09", "T08", "T06", "T07", "T03", "T04", "E_range_cond", "E_range_bound_dep"] + ["F:menuconfig/kconfigs/Kconfig." + x for x in ("pilot_all_scalars", "pilot_choice", "pilot_submenu", "indirect_sets", "float", "warning")], 2, 300, 3
     out = []
     for tid in trees:
         nn = len(list(ST.build(tid).node_iter()))
